@@ -9,5 +9,5 @@ Extraction "../ocaml/c03/model.ml" hash_one feed token_spec murmur3_token_spec c
   pk_new encoded_pk_chunks ps_calculate_token ps_compute_partition_key token_for_partition_key
   key_okb prop_token_ok prop_pk_token_ok spec_token spec_serialized_key spec_components
   hash3_x64_128 partitioner_from_str table_partitioner ends_with cdc_suffix murmur3_suffix
-  prepared_partitioner partitioners_get typed_row ps_calculate_token_typed ps_compute_partition_key_typed
+  prepared_partitioner session_partitioner partitioners_get typed_row ps_calculate_token_typed ps_compute_partition_key_typed
   shard_of spec_shard_of.
